@@ -8,6 +8,7 @@ import (
 
 	"verifsim/core"
 	"verifsim/refmodel"
+	rd "verifsim/respdec"
 )
 
 // Lock-step oracle: a client that exclusively owns its keys is compared reply
@@ -25,7 +26,12 @@ type lsExtra struct {
 // (for any property): generators avoid such command instances.
 func knownClass(env *core.Env, class string) bool {
 	for sig := range env.Known {
-		if strings.HasSuffix(sig, "/"+class) || strings.HasSuffix(sig, "/state-after:"+class) {
+		parts := strings.SplitN(sig, "/", 3)
+		if len(parts) < 3 {
+			continue
+		}
+		trig := strings.TrimPrefix(parts[2], "state-after:")
+		if trig == class || (strings.Contains(trig, "*") && core.Glob(trig, class)) {
 			return true
 		}
 	}
@@ -52,7 +58,9 @@ func newLsGen(r *core.Rand, env *core.Env, prefix string, ndb int, aim bool) *ls
 
 // try emits the command unless its class is a listed finding (and the run is
 // not an aiming run).  Returns whether it was emitted.
-func (g *lsGen) try(a []B) bool {
+func (g *lsGen) try(a []B) bool { return g.tryTag(a, "") }
+
+func (g *lsGen) tryTag(a []B, tag string) bool {
 	if len(g.steps) >= 400 {
 		return false
 	}
@@ -61,7 +69,7 @@ func (g *lsGen) try(a []B) bool {
 			return false
 		}
 	}
-	g.steps = append(g.steps, Step{Kind: "cmd", Args: a})
+	g.steps = append(g.steps, Step{Kind: "cmd", Args: a, Tag: tag})
 	g.m.Exec(g.conn, argv(a), g.now)
 	return true
 }
@@ -119,32 +127,32 @@ func itoa(i int) string { return fmt.Sprint(i) }
 
 // readBack appends reads of the key appropriate to its model type.
 func (g *lsGen) readBack(k string) {
-	g.try(bs("exists", k))
-	g.try(bs("type", k))
+	g.tryTag(bs("exists", k), "rb")
+	g.tryTag(bs("type", k), "rb")
 	e, ok := g.m.DBs[g.m.Selected[g.conn]].Keys[k]
 	if !ok {
 		return
 	}
 	switch e.T {
 	case refmodel.TString:
-		g.try(bs("get", k))
-		g.try(bs("strlen", k))
+		g.tryTag(bs("get", k), "rb")
+		g.tryTag(bs("strlen", k), "rb")
 	case refmodel.TList:
-		g.try(bs("lrange", k, "0", "-1"))
-		g.try(bs("llen", k))
+		g.tryTag(bs("lrange", k, "0", "-1"), "rb")
+		g.tryTag(bs("llen", k), "rb")
 	case refmodel.THash:
-		g.try(bs("hgetall", k))
-		g.try(bs("hlen", k))
+		g.tryTag(bs("hgetall", k), "rb")
+		g.tryTag(bs("hlen", k), "rb")
 	case refmodel.TSet:
-		g.try(bs("smembers", k))
-		g.try(bs("scard", k))
+		g.tryTag(bs("smembers", k), "rb")
+		g.tryTag(bs("scard", k), "rb")
 	case refmodel.TZSet:
-		g.try(bs("zrange", k, "0", "-1", "withscores"))
+		g.tryTag(bs("zrange", k, "0", "-1", "withscores"), "rb")
 	case refmodel.TStream:
-		g.try(bs("xrange", k, "-", "+"))
+		g.tryTag(bs("xrange", k, "-", "+"), "rb")
 	}
 	if e.HasTTL {
-		g.try(bs("ttl", k))
+		g.tryTag(bs("ttl", k), "rb")
 	}
 }
 
@@ -232,12 +240,36 @@ func judgeLockstep(prop string) func(sc *Scenario, rr *RunResult, env *core.Env)
 			}
 			m := refmodel.New(max(sc.Knobs.Databases, 1))
 			lastWrite := map[string]string{}
+			everTTL := map[string]bool{}
 			for oi, op := range c.ops {
 				if !op.Done {
 					break
 				}
 				class := classify(m, 0, op.Args, op.InvokeAt)
+				// expiry involvement, from the model's pre-state
+				ttlInvolved := false
+				if len(op.Args) > 1 {
+					for _, k := range op.Args[1:] {
+						if e, ok := m.DBs[0].Keys[string(k)]; ok && e.HasTTL {
+							ttlInvolved = true
+							everTTL[string(k)] = true
+							if !op.InvokeAt.Before(e.WinLo) {
+								class += ",in-expiry-window"
+							}
+						} else if (!ok || (e.HasTTL && !op.InvokeAt.Before(e.WinHi))) && everTTL[string(k)] {
+							ttlInvolved = true
+							class += ",expired-key"
+						}
+					}
+				}
 				ok, why := m.Apply(0, argv(op.Args), op.InvokeAt, op.Reply)
+				if len(op.Args) > 1 {
+					for _, k := range op.Args[1:] {
+						if e, ok := m.DBs[0].Keys[string(k)]; ok && e.HasTTL {
+							everTTL[string(k)] = true
+						}
+					}
+				}
 				if ok {
 					if !isReadOnly(op.Args) && len(op.Args) > 1 {
 						for _, k := range op.Args[1:] {
@@ -245,23 +277,69 @@ func judgeLockstep(prop string) func(sc *Scenario, rr *RunResult, env *core.Env)
 						}
 					}
 					rr.Probes["lockstep-ops-checked"]++
+					if ttlInvolved {
+						rr.Probes["ops-on-keys-with-deadline"]++
+					}
 					continue
 				}
 				trigger := class
-				if isReadOnly(op.Args) && len(op.Args) > 1 {
+				owner := ownerProp(op.Args, prop)
+				kind := "reply-mismatch"
+				if ttlInvolved {
+					owner, kind = "C06", "expiry"
+				}
+				if nestedSimple(op.Reply, 0) {
+					// a payload framed as a simple string: a conforming client
+					// cannot decode the stored bytes from it when they hold CR/LF
+					owner, kind = "C03", "framing"
+				}
+				// a plain read-back that disagrees points at the state left by the
+				// last write on that key, unless the read itself is a listed finding
+				if c.prog.Steps[op.StepIdx].Tag == "rb" && !knownClass(env, class) {
 					if lw, ok := lastWrite[string(op.Args[1])]; ok {
 						trigger = "state-after:" + lw
+						if !ttlInvolved {
+							owner = ownerProp([]B{B(strings.ToLower(lw[:strings.IndexByte(lw, ':')]))}, prop)
+						}
 					}
 				}
 				var hist []string
 				from := max(0, oi-12)
 				for _, p := range c.ops[from:oi] {
-					hist = append(hist, fmt.Sprintf("    %s -> %s", truncate(cmdString(p.Args), 90), truncate(p.Reply.String(), 90)))
+					hist = append(hist, fmt.Sprintf("    t=%s %s -> %s", p.InvokeAt.Format("15:04:05.000"), truncate(cmdString(p.Args), 90), truncate(p.Reply.String(), 90)))
 				}
-				msg := fmt.Sprintf("client %d, command %d: %s\n  %s\n  after:\n%s", ci, oi, cmdString(op.Args), why, strings.Join(hist, "\n"))
-				return prop + "/reply-mismatch/" + trigger, msg
+				msg := fmt.Sprintf("client %d, command %d at t=%s: %s\n  %s\n  after:\n%s", ci, oi, op.InvokeAt.Format("15:04:05.000"), cmdString(op.Args), why, strings.Join(hist, "\n"))
+				return owner + "/" + kind + "/" + trigger, msg
+			}
+		}
+		// exactly one reply per command: nothing may be left over
+		for ci, c := range rr.Clients {
+			if c.prog.Role != "owner" || c.closed || c.rawSent {
+				continue
+			}
+			if len(c.pushes) > 0 {
+				last := "none"
+				if len(c.ops) > 0 {
+					last = c04Class(c.ops[len(c.ops)-1].Args)
+				}
+				return "C03/extra-reply/" + last, fmt.Sprintf("client %d received %d more RESP values than it sent commands; first extra: %s", ci, len(c.pushes), c.pushes[0].V.String())
+			}
+			if len(c.rx) > 0 && c.malformed == "" && len(c.waiting) == 0 {
+				return "C03/truncated-reply/tail", fmt.Sprintf("client %d: %d bytes of an incomplete RESP value left in the reply stream: %q", ci, len(c.rx), truncate(string(c.rx), 60))
 			}
 		}
 		return "", ""
 	}
+}
+
+func nestedSimple(v rd.Value, depth int) bool {
+	if v.Kind == rd.Simple && depth > 0 {
+		return true
+	}
+	for _, e := range v.Arr {
+		if nestedSimple(e, depth+1) {
+			return true
+		}
+	}
+	return false
 }
